@@ -132,12 +132,15 @@ func tailGuest() []byte {
 	m.AddFunc(two, one, nil, body(func(c *wasmb.Code) { c.I32Const(1).ReturnCallIndirect(ty, 0) }), "tindirect")
 	m.AddFunc(two, one, nil, body(func(c *wasmb.Code) { c.ReturnCall(3) }), "tmutual")
 	m.AddFunc(two, one, nil, body(func(c *wasmb.Code) { c.I32Const(2).ReturnCallIndirect(ty, 0) }), "tb")
+	// mvblock(n, acc): a block with a multi-value result type (feature multi-value, part of 2.0)
+	tmv := m.AddType(nil, []wasmb.ValType{i32, i32})
+	m.AddFunc(two, one, nil, (&wasmb.Code{}).Block(byte(tmv)).LocalGet(0).LocalGet(1).End().I32Add().B, "mvblock")
 	m.Tables = []wasmb.Table{{Elem: wasmb.FuncRef, Lim: wasmb.Limits{Min: 4}}}
 	m.Elems = []wasmb.Elem{{Mode: 0, Offset: wasmb.ConstI32(0), Funcs: []uint32{0, 1, 2, 3}}}
 	return m.Encode()
 }
 
-var tailFns = []string{"tdirect", "tindirect", "tmutual"}
+var tailFns = []string{"tdirect", "tindirect", "tmutual", "mvblock"}
 
 type tailStep struct {
 	fn string
@@ -431,6 +434,29 @@ func (c12) Run(t *tape.Tape, cfg sim.Config) (res sim.Result) {
 		case "dir":
 			dirUsers++
 		}
+	}
+	if t.Chance(1, 4) {
+		// another embedder uses the shared caches first, with an OLDER feature set (its own business):
+		// the caches must serve every later runtime according to that runtime's own settings
+		var rc wazero.RuntimeConfig
+		if cfg.Engine == "interpreter" {
+			rc = wazero.NewRuntimeConfigInterpreter()
+		} else {
+			rc = wazero.NewRuntimeConfigCompiler()
+		}
+		dc, derr := wazero.NewCompilationCacheWithDir(dir)
+		if derr != nil {
+			panic(derr)
+		}
+		for _, cc := range []wazero.CompilationCache{shared, dc} {
+			drt := wazero.NewRuntimeWithConfig(context.Background(), rc.WithCoreFeatures(api.CoreFeaturesV1).WithCompilationCache(cc))
+			if _, err := drt.CompileModule(context.Background(), []byte{0, 'a', 's', 'm', 1, 0, 0, 0}); err != nil {
+				panic(err)
+			}
+			drt.Close(context.Background())
+		}
+		dc.Close(context.Background())
+		res.Stat("probe.caches_first_used_by_a_runtime_with_older_features", 1)
 	}
 	for i, d := range descs {
 		tr, err := runOne(cfg.Engine, d, shared, dir, bin, p, script, tails)
